@@ -211,6 +211,16 @@ class Monitors:
                 return run
             self._patch(CS, "semgrep_run", mkrun("own"))
             self._patch(CC, "run_semgrep", mkrun("prefilter"))
+        if cfg.get("sarif_tools"):
+            # H-rs at the CLI's routing step: which tool each --sarif file was filed under
+            import codemodder.codemodder as CC2
+            orig_det = CC2.detect_sarif_tools
+            def detect_sarif_tools(filenames):
+                tr.count("detect_sarif_tools")
+                res = orig_det(filenames)
+                tr.emit("sarif_tools", files=[str(f) for f in filenames], map={k: list(v_) for k, v_ in res.items()})
+                return res
+            self._patch(CC2, "detect_sarif_tools", detect_sarif_tools)
         if cfg.get("fs", False):
             self._fs_on = True
             _install_audit(tr, self)
